@@ -1,7 +1,9 @@
 (* Which statements of the library may change an object that the running call did not create itself.
    The inventory (coq/gen/Writes.v) is regenerated from the two source files on every run: every assignment to or deletion of an
    attribute or item, and every use of a mutating method, whose receiver is not a local variable bound only to freshly made
-   objects; module-level names bound to mutable containers; class attributes bound to anything but constants; reflective writes.
+   objects; module-level names bound to mutable containers; module-level statements that assign through an attribute or item or
+   call a mutating method; decorators other than classmethod / staticmethod / property / total_ordering (a decorator can keep state
+   between calls); class attributes bound to anything but constants; reflective writes.
    The policy below says where such statements may stand for the thread model (Model/Threads.v) and the history model
    (Model/History.v) to be models of this code: in the functions that build a tokenizer before it is published (their order is
    the subject of gen/ThreadProg.v), in the statement that publishes it, and in four places that work on a list or set the same
@@ -22,7 +24,11 @@ Definition write_allowed (w : write) : bool :=
   let '(f, k, t) := w in
   if String.eqb f "<module>"
   then (* constants: no statement of the inventory has one of them as receiver *)
-       String.eqb k "mutable" && in_list t ["KEYWORDS_STRINGS"; "OPERATORS"]
+       (String.eqb k "mutable" && in_list t ["KEYWORDS_STRINGS"; "OPERATORS"])
+       (* done once, while the module is imported: the four error messages added to boolean.py's table, Keyword.__len__ *)
+       || (String.eqb k "assign" &&
+           in_list t ["Keyword.__len__"; "PARSE_ERRORS[PARSE_EXPRESSION_NOT_UNICODE]"; "PARSE_ERRORS[PARSE_INVALID_EXCEPTION]";
+                      "PARSE_ERRORS[PARSE_INVALID_SYMBOL]"; "PARSE_ERRORS[PARSE_INVALID_SYMBOL_AS_EXCEPTION]"])
   else in_list f builders
        (* filling the local tokenizer, then the publication *)
        || (String.eqb f "Licensing.get_advanced_tokenizer" && in_list t ["self.advanced_tokenizer"; "tokenizer.add"])
